@@ -45,6 +45,7 @@ int cmd_c13(int argc, char **argv);
 int cmd_c07(int argc, char **argv);
 int cmd_c06(int argc, char **argv);
 int cmd_c08(int argc, char **argv);
+int cmd_c16(int argc, char **argv);
 void j_crystal(Crystal_Struct *c);
 typedef double (*xrl_f2)(int, int, xrl_error **);
 void emit_row(const char *key, xrl_f2 f, int Z, int lo, int hi);
